@@ -484,8 +484,8 @@ func (mw *msgWriter) writeHeader(key Header, values ...string) int {
 	buffer.WriteString(string(key))
 	charLength -= len(key)
 	if len(values) == 0 {
-		buffer.WriteString(":\r\n")
-		return lines + 1
+		// nothing is written for a header without values, so no line is accounted for
+		return lines
 	}
 	buffer.WriteString(": ")
 	charLength -= 2
